@@ -888,6 +888,23 @@ func (r *Runner) runPar(ctx context.Context, st *Stack, b *Base, op Op) {
 		res := r.Ctl.RunSchedule(op.Sched)
 		r.Log.Emit(Ev{"ev": "Sched", "r": op.ID, "deadlock": res.Deadlock, "stuck": res.Stuck, "deviations": res.Deviations, "blocked": res.Blocked})
 		if res.Deadlock || res.Stuck {
+			if res.Stuck {
+				// no deadlock could be established from logged lock ownership (the requests wait for something the wrappers do not see):
+				// give the requests ten more seconds, then look at what their goroutines are doing, as for free-running groups
+				done := make(chan struct{})
+				go func() { wg.Wait(); close(done) }()
+				select {
+				case <-done:
+					r.Log.Emit(Ev{"ev": "Sched", "r": op.ID, "deadlock": false, "stuck": false, "deviations": append(res.Deviations, "all requests finished after the watchdog period"), "blocked": res.Blocked})
+					r.Ctl.StopGating()
+					return
+				case <-time.After(10 * time.Second):
+				}
+				buf := make([]byte, 1<<22)
+				n := runtime.Stack(buf, true)
+				inLock := strings.Count(string(buf[:n]), "sync.(*Mutex).Lock") + strings.Count(string(buf[:n]), "sync.(*RWMutex).Lock") + strings.Count(string(buf[:n]), "sync.(*RWMutex).RLock")
+				r.Log.Emit(Ev{"ev": "Watchdog", "r": op.ID, "goroutines_in_mutex_lock": inLock})
+			}
 			// The parked goroutines can never finish; report and abandon the process.
 			r.Log.Emit(Ev{"ev": "Abandon", "r": op.ID, "deadlock": res.Deadlock})
 			os.Exit(3)
